@@ -95,7 +95,9 @@ class InversionImagingWTilde(AbstractInversionImaging):
         """
 
         if self.preloads.data_vector_mapper is not None:
-            return self.preloads.data_vector_mapper
+            # Need to copy because the entries of linear func lists are written into this array in place.
+
+            return copy.copy(self.preloads.data_vector_mapper)
 
         if not self.has(cls=AbstractMapper):
             return None
@@ -293,7 +295,9 @@ class InversionImagingWTilde(AbstractInversionImaging):
         """
 
         if self.preloads.curvature_matrix_mapper_diag is not None:
-            return self.preloads.curvature_matrix_mapper_diag
+            # Need to copy because the off-diagonal and linear func list blocks are written into this array in place.
+
+            return copy.copy(self.preloads.curvature_matrix_mapper_diag)
 
         if not self.has(cls=AbstractMapper):
             return None
